@@ -458,7 +458,7 @@ def cases(rng, tier):
                 out.append({"maxsize": maxsize, "reqs": [{"head": False, "preload": False, "caller": list(c)}, {"head": False, "preload": False, "caller": ["read_all"]},
                                                          {"head": False, "preload": True, "caller": ["read_all"]}],
                             "replies": [dict(PLAIN, first=first, late=True)] + [dict(PLAIN)] * 12})
-    n = 2500 if tier == "quick" else 40000
+    n = 2500 if tier == "quick" else 200000
     for _ in range(n):
         out.append(one_case(rng))
     return out
